@@ -5,7 +5,8 @@
             group's Listen/Register: one atomic step; a leave is one atomic step).
    [run2] = the code before the repair of finding F-C13 (join = two atomic steps), kept only for
             the regression witnesses at the end. *)
-From FRP Require Import Model.Group Proofs.GroupProofs Model.GroupLocks Proofs.GroupLockProofs gen.GenGroupLocks.
+From FRP Require Import Model.Group Proofs.GroupProofs Model.GroupLocks Proofs.GroupLockProofs gen.GenGroupLocks
+  Model.GroupRoutes Proofs.GroupRouteProofs.
 Import Grp.
 Open Scope Z_scope.
 
@@ -224,6 +225,61 @@ Print Assumptions C13_lock_structure_matches_model.
 Theorem C13_accept_and_close_shape_match_model : group_shapes_ok group_accept_shape = true.
 Proof. vm_compute. reflexivity. Qed.
 Print Assumptions C13_accept_and_close_shape_match_model.
+
+(* ---- several groups on one shared port space / route table ---- *)
+(* for ALL request lists and schedules: as long as a group has members its port / route is booked (and
+   not by the environment), and no two groups with members share one: the joins, leaves, refusals and
+   recreations of every OTHER group — and of non-group proxies — leave it intact *)
+Theorem C13_live_group_keeps_its_route : forall k reqs sched lo hi c,
+  run k reqs sched (init lo hi reqs) = Run c ->
+  (forall gid g, nth_error (s_heap (c_s c)) gid = Some g -> members k g <> [] ->
+     rmem (g_res k g) (s_used (c_s c)) = true /\ rmem (g_res k g) (s_env (c_s c)) = false) /\
+  (forall gid1 gid2 g1 g2, nth_error (s_heap (c_s c)) gid1 = Some g1 -> nth_error (s_heap (c_s c)) gid2 = Some g2 ->
+     members k g1 <> [] -> members k g2 <> [] -> g_res k g1 = g_res k g2 -> gid1 = gid2).
+Proof. exact live_group_keeps_its_route. Qed.
+Print Assumptions C13_live_group_keeps_its_route.
+
+(* step level: a leave changes the booking of no port / route but the group's own *)
+Theorem C13_leave_touches_only_own_route : forall k s gid g lid s' r,
+  nth_error (s_heap s) gid = Some g -> leave_chan k s gid lid = Some s' -> r <> g_res k g ->
+  rmem r (s_used s') = rmem r (s_used s).
+Proof. exact leave_touches_only_own_route. Qed.
+Print Assumptions C13_leave_touches_only_own_route.
+
+Theorem C13_http_leave_touches_only_own_route : forall s n m gid g r,
+  tab_get (s_tab s) n = Some gid -> nth_error (s_heap s) gid = Some g -> r <> g_res KHttp g ->
+  rmem r (s_used (leave_http s n m)) = rmem r (s_used s).
+Proof. exact leave_http_touches_only_own_route. Qed.
+Print Assumptions C13_http_leave_touches_only_own_route.
+
+(* the route table as the code has it (domain -> routeByHTTPUser -> routers): Del removes exactly the
+   matching (domain, location, user) entry; the flat key set of the group model is an exact abstraction
+   of it for exist / Add / Del *)
+Theorem C13_router_del_removes_exactly_one_route : forall t d l u d' l' u',
+  rt_exist (rt_del t d l u) d' l' u' = rt_exist t d' l' u' && negb (key_eqb d l u d' l' u').
+Proof. exact rt_exist_del. Qed.
+Print Assumptions C13_router_del_removes_exactly_one_route.
+
+Theorem C13_route_table_refines_key_set :
+  refines [] [] /\
+  (forall t used d l u, refines t used -> refines (rt_del t d l u) (rdel [d; l; u] used)) /\
+  (forall t used d l u t', refines t used -> rt_add t d l u = Some t' -> refines t' ([d; l; u] :: used)) /\
+  (forall t used d l u, refines t used -> (rt_add t d l u = None <-> rmem [d; l; u] used = true)).
+Proof. exact (conj refines_init (conj refines_del (conj refines_add refines_conflict))). Qed.
+Print Assumptions C13_route_table_refines_key_set.
+
+(* reflective, over today's source: Routers.Del has the statements [rt_del] mirrors (no other bucket, no
+   domain entry is deleted), and the comparisons a later member must pass are the ones of [mutate]
+   (http: incl. the credentials of the route) *)
+Theorem C13_router_del_and_join_checks_match_model :
+  sl_eqb router_del_shape expected_del_shape = true /\ shapes_eqb group_join_checks expected_join_checks = true.
+Proof. vm_compute. split; reflexivity. Qed.
+Print Assumptions C13_router_del_and_join_checks_match_model.
+
+Example C13_example_two_groups_one_domain :
+  forall t1 t2, rt_add [] 1 2 1 = Some t1 -> rt_add t1 1 2 2 = Some t2 ->
+  rt_exist (rt_del t2 1 2 2) 1 2 1 = true /\ rt_exist (rt_del t2 1 2 2) 1 2 2 = false.
+Proof. intros t1 t2 H1 H2. vm_compute in H1. inversion H1; subst. vm_compute in H2. inversion H2; subst. vm_compute. split; reflexivity. Qed.
 
 (* ---- regression witnesses about the OLD two-step join (finding F-C13, repaired in /repo) ---- *)
 Theorem C13_old_two_step_join_crashes :
